@@ -47,6 +47,10 @@ pub struct Case {
     pub single: bool,
     pub x: Vec<Vec<f64>>,
     pub fresh: Vec<Vec<f64>>,
+    /// common offset per feature that was added to `x` and `fresh` (un-centred data); documentation of
+    /// the case only, the oracle works on the stored values. Empty = centred data.
+    #[serde(default)]
+    pub offset: Vec<f64>,
 }
 
 impl Case {
@@ -106,7 +110,15 @@ pub struct Cfg {
     pub eps: f64,
     pub shrinking: bool,
     pub single: bool,
+    /// selector of the feature offset (0..8), used with the Gaussian kernel only
+    pub offset: u8,
 }
+
+/// Offset magnitudes by selector. f32: offset^2 * eps_mach reaches ~0.1 at 1e3; f64: at ~3e7.
+pub const OFFSETS_F64: [f64; 8] = [0.0, 0.0, 0.0, 10.0, 100.0, 1000.0, 1e7, 1e8];
+pub const OFFSETS_F32: [f64; 8] = [0.0, 0.0, 0.0, 10.0, 100.0, 300.0, 1000.0, 1000.0];
+/// per-feature multipliers of the magnitude
+pub const OFFSET_PATTERN: [f64; 3] = [1.0, -0.75, 0.5];
 
 /// Turn ingredients into a concrete case.
 pub fn build(cfg: Cfg, rows: &[RowIng], fresh: &[RowIng]) -> Case {
@@ -175,6 +187,26 @@ pub fn build(cfg: Cfg, rows: &[RowIng], fresh: &[RowIng]) -> Case {
         })
         .collect();
 
+    // un-centred data: a common offset per feature, large against the spread (the targets above were
+    // computed from the centred features). Only with the Gaussian kernel: it depends on differences only, so
+    // the true kernel values stay the same and every tolerance of the oracle keeps its meaning; linear and
+    // polynomial kernel values would grow like offset^2 (the KKT slack, which is relative to sum |a_j K_ij|,
+    // would become vacuous and SMO would run into its iteration cap).
+    let mag = if matches!(cfg.kernel, Kern::Gaussian(_)) {
+        (if single { OFFSETS_F32 } else { OFFSETS_F64 })[(cfg.offset as usize).min(7)]
+    } else {
+        0.0
+    };
+    let offset: Vec<f64> = if mag == 0.0 { vec![] } else { (0..p).map(|j| mag * OFFSET_PATTERN[j]).collect() };
+    let shift = |row: &mut Vec<f64>| {
+        for (v, o) in row.iter_mut().zip(&offset) {
+            *v = r32(((*v + *o) * 65536.0).round() / 65536.0, single);
+        }
+    };
+    for row in x.iter_mut() {
+        shift(row);
+    }
+
     let npos = labels.iter().filter(|b| **b).count();
     let nmin = npos.min(n - npos);
     let pick_nu = |sel: u8| -> f64 {
@@ -235,7 +267,9 @@ pub fn build(cfg: Cfg, rows: &[RowIng], fresh: &[RowIng]) -> Case {
         .iter()
         .map(|r| {
             let g = [r.0, r.1, r.2];
-            (0..p).map(|j| r32((1.2 * g[j] * 65536.0).round() / 65536.0, single)).collect()
+            let mut row: Vec<f64> = (0..p).map(|j| r32((1.2 * g[j] * 65536.0).round() / 65536.0, single)).collect();
+            shift(&mut row);
+            row
         })
         .collect();
     Case {
@@ -247,6 +281,7 @@ pub fn build(cfg: Cfg, rows: &[RowIng], fresh: &[RowIng]) -> Case {
         single,
         x,
         fresh,
+        offset,
     }
 }
 
@@ -305,11 +340,12 @@ pub fn case_strategy(fl: Flavor) -> impl Strategy<Value = Case> {
         kernel(),
         task(fl.c_lo, fl.c_hi),
         any::<bool>(),
+        0u8..8,
     )
-        .prop_map(move |(rows, fresh, layout, p, kernel, task, fine)| {
+        .prop_map(move |(rows, fresh, layout, p, kernel, task, fine, offset)| {
             let eps = if fl.single || !fine { 1e-3 } else { 1e-5 };
             build(
-                Cfg { layout, p, kernel, task, eps, shrinking: fl.shrinking, single: fl.single },
+                Cfg { layout, p, kernel, task, eps, shrinking: fl.shrinking, single: fl.single, offset },
                 &rows,
                 &fresh,
             )
@@ -319,8 +355,8 @@ pub fn case_strategy(fl: Flavor) -> impl Strategy<Value = Case> {
 /// Large stratum: the bulk data is derived from one generated seed (a case with 2000 explicit
 /// ingredient rows would make proptest's shrinking useless and slow).
 pub fn large_strategy(n_lo: usize, n_hi: usize) -> impl Strategy<Value = Case> {
-    (any::<u64>(), n_lo..=n_hi, layout(), 1usize..=3, kernel(), task(-200, 100), any::<bool>(), any::<bool>()).prop_map(
-        |(seed, n, layout, p, kernel, task, fine, shrinking)| {
+    (any::<u64>(), n_lo..=n_hi, layout(), 1usize..=3, kernel(), task(-200, 100), any::<bool>(), any::<bool>(), 0u8..8).prop_map(
+        |(seed, n, layout, p, kernel, task, fine, shrinking, offset)| {
             let mut rng = SplitMix(seed);
             let mut mk = |k: usize| -> Vec<RowIng> {
                 (0..k)
@@ -339,7 +375,7 @@ pub fn large_strategy(n_lo: usize, n_hi: usize) -> impl Strategy<Value = Case> {
             let rows = mk(n);
             let fresh = mk(4);
             let eps = if fine { 1e-5 } else { 1e-3 };
-            build(Cfg { layout, p, kernel, task, eps, shrinking, single: false }, &rows, &fresh)
+            build(Cfg { layout, p, kernel, task, eps, shrinking, single: false, offset }, &rows, &fresh)
         },
     )
 }
